@@ -185,10 +185,15 @@ func (c *Component) SendIQ(ctx context.Context, iq *stanza.IQ) (chan stanza.IQ, 
 	if iq.Attrs.Type != stanza.IQTypeSet && iq.Attrs.Type != stanza.IQTypeGet {
 		return nil, ErrCanOnlySendGetOrSetIq
 	}
+	// Register the result route before writing the request: the response may arrive at once
+	result := c.router.NewIQResultRoute(ctx, iq.Attrs.Id)
 	if err := c.Send(iq); err != nil {
+		c.router.IQResultRouteLock.Lock()
+		delete(c.router.IQResultRoutes, iq.Attrs.Id)
+		c.router.IQResultRouteLock.Unlock()
 		return nil, err
 	}
-	return c.router.NewIQResultRoute(ctx, iq.Attrs.Id), nil
+	return result, nil
 }
 
 // SendRaw sends an XMPP stanza as a string to the server.
